@@ -44,11 +44,11 @@ Definition text_split (sep : N) (s : str) : option str * str :=
 Definition in_ranges (c : N) (t : list (N * N)) : bool :=
   existsb (fun r => (fst r <=? c) && (c <=? snd r)) t.
 
-Definition py_isalpha (c : N) : bool := in_ranges c py_alpha_ranges.
-
-(* namespaces.is_ncname *)
-Definition ncname_start (c : N) : bool := py_isalpha c || (c =? 95).
-Definition ncname_char (c : N) : bool := py_isalpha c || py_isdigit c || mem c ncname_punctuation.
+(* namespaces.is_ncname (since /repo 4e4ae03): NCNAME_REGEX.fullmatch, i.e. one
+   character of the start class and any number of the name class; the two classes
+   are regenerated from the pattern *)
+Definition ncname_start (c : N) : bool := in_ranges c ncname_start_ranges.
+Definition ncname_char (c : N) : bool := in_ranges c ncname_char_ranges.
 Definition is_ncname (name : str) : bool :=
   match name with
   | [] => false
